@@ -328,4 +328,39 @@ theorem word4_exists (y : Nat) : ∃ a b c d : Nat, a < 256 ∧ b < 256 ∧ c < 
   refine ⟨y / 256 / 256 / 256 % 256, y / 256 / 256 % 256, y / 256 % 256, y % 256, by omega, by omega, by omega, by omega, by omega, ?_⟩
   rw [bswap4_eq]
 
+
+/-! ### 64-bit byte swap (`__builtin_bswap64`) -/
+
+theorem bswap8_eq (y : Nat) : bswap 8 y =
+    y % 256 * 72057594037927936 + (y / 256 % 256 * 281474976710656 + (y / 256 / 256 % 256 * 1099511627776 +
+    (y / 256 / 256 / 256 % 256 * 4294967296 + (y / 256 / 256 / 256 / 256 % 256 * 16777216 +
+    (y / 256 / 256 / 256 / 256 / 256 % 256 * 65536 + (y / 256 / 256 / 256 / 256 / 256 / 256 % 256 * 256 +
+    y / 256 / 256 / 256 / 256 / 256 / 256 / 256 % 256)))))) := by
+  simp only [bswap, Nat.reducePow, Nat.mul_one, Nat.add_zero, Nat.pow_zero]
+
+theorem bswap8_mod (y : Nat) : bswap 8 y % 18446744073709551616 = bswap 8 y := by rw [bswap8_eq]; omega
+theorem bswap8_mod_arg (y : Nat) : bswap 8 (y % 18446744073709551616) = bswap 8 y := by rw [bswap8_eq, bswap8_eq]; omega
+
+theorem bswap8_digits (b0 b1 b2 b3 b4 b5 b6 b7 : Nat) (h0 : b0 < 256) (h1 : b1 < 256) (h2 : b2 < 256) (h3 : b3 < 256)
+    (h4 : b4 < 256) (h5 : b5 < 256) (h6 : b6 < 256) (h7 : b7 < 256) (z : Nat)
+    (hz : z = b0 * 72057594037927936 + (b1 * 281474976710656 + (b2 * 1099511627776 + (b3 * 4294967296 + (b4 * 16777216 +
+      (b5 * 65536 + (b6 * 256 + b7))))))) :
+    bswap 8 z = b7 * 72057594037927936 + (b6 * 281474976710656 + (b5 * 1099511627776 + (b4 * 4294967296 + (b3 * 16777216 +
+      (b2 * 65536 + (b1 * 256 + b0)))))) := by
+  rw [bswap8_eq]
+  have a0 : z % 256 = b7 := by omega
+  have a1 : z / 256 % 256 = b6 := by omega
+  have a2 : z / 256 / 256 % 256 = b5 := by omega
+  have a3 : z / 256 / 256 / 256 % 256 = b4 := by omega
+  have a4 : z / 256 / 256 / 256 / 256 % 256 = b3 := by omega
+  have a5 : z / 256 / 256 / 256 / 256 / 256 % 256 = b2 := by omega
+  have a6 : z / 256 / 256 / 256 / 256 / 256 / 256 % 256 = b1 := by omega
+  have a7 : z / 256 / 256 / 256 / 256 / 256 / 256 / 256 % 256 = b0 := by omega
+  rw [a0, a1, a2, a3, a4, a5, a6, a7]
+
+theorem bswap8_invol (y : Nat) : bswap 8 (bswap 8 y) = y % 18446744073709551616 := by
+  rw [bswap8_digits _ _ _ _ _ _ _ _ (by omega) (by omega) (by omega) (by omega) (by omega) (by omega) (by omega) (by omega)
+    (bswap 8 y) (bswap8_eq y)]
+  omega
+
 end Tins.Fields
